@@ -862,12 +862,15 @@ async fn scenario<G: FnOnce(&mut Rng, &World) -> Vec<Item>>(ctx: &mut Ctx, epmd:
 async fn timed_scenarios(ctx: &mut Ctx, epmd: &FakeEpmd, case: &mut usize) {
     let mk_spec = || WorldSpec { nlive: 1, names: vec![], ndead: 0, nrpc: 0, local_traffic: false };
     let mut prepared = vec![];
-    for which in 0..4 {
+    for which in 0..5 {
         let spec = mk_spec();
         let p = prepare(ctx, epmd, case, &spec, |r, w| match which {
             0 => vec![Item::Quiet(16_000), Item::Tick, Item::Quiet(16_000), Item::Tick, gen_item(r, w, Kind::SendLive)],
             1 => vec![gen_item(r, w, Kind::SendLive), Item::Quiet(50_000), gen_item(r, w, Kind::SendLive)],
             2 => vec![gen_item(r, w, Kind::SendLive), Item::Quiet(76_000)],
+            // quiet for longer than the limit, but ticking every 15 s as a peer does: the connection stays, the message arrives
+            4 => vec![gen_item(r, w, Kind::SendLive), Item::Quiet(15_000), Item::Tick, Item::Quiet(15_000), Item::Tick, Item::Quiet(15_000), Item::Tick,
+                      Item::Quiet(15_000), Item::Tick, Item::Quiet(15_000), Item::Tick, gen_item(r, w, Kind::SendLive)],
             _ => {
                 let full = item_bytes(&gen_item(r, w, Kind::SendLive));
                 vec![gen_item(r, w, Kind::SendLive), Item::Raw(full[..full.len() - 3].to_vec()), Item::Quiet(76_000)]
@@ -1071,6 +1074,7 @@ async fn rx_cases(ctx: &mut Ctx) {
     let tick = vec![0u8, 0, 0, 0];
     let short = LIMIT / 20;
     let long = LIMIT * 2 + 500;
+    let mid = LIMIT * 2 / 5;
     let g1 = good(&mut ctx.rng);
     let g2 = good(&mut ctx.rng);
     let timed: Vec<Vec<RxEv>> = vec![
@@ -1080,6 +1084,13 @@ async fn rx_cases(ctx: &mut Ctx) {
         vec![RxEv::Chunk(g1[..6].to_vec()), RxEv::Quiet(long), RxEv::Chunk(g1[6..].to_vec()), RxEv::Close],
         vec![RxEv::Chunk(g1[..2].to_vec()), RxEv::Quiet(long), RxEv::Chunk(g1[2..].to_vec()), RxEv::Close],
         vec![RxEv::Chunk(g1[..6].to_vec()), RxEv::Quiet(short), RxEv::Chunk(g1[6..].to_vec()), RxEv::Quiet(short), RxEv::Chunk(g2.clone()), RxEv::Close],
+        // a quiet period longer than the limit during which the peer keeps ticking: every single silence is well below
+        // the limit (2/5 of it), together they exceed it; the limit applies to each wait, not to the time between messages
+        vec![RxEv::Chunk(g1.clone()), RxEv::Quiet(mid), RxEv::Chunk(tick.clone()), RxEv::Quiet(mid), RxEv::Chunk(tick.clone()), RxEv::Quiet(mid), RxEv::Chunk(tick.clone()),
+             RxEv::Quiet(mid), RxEv::Chunk(g2.clone()), RxEv::Close],
+        // the same with the last silences around and inside a frame (prefix read and body read wait separately)
+        vec![RxEv::Quiet(mid), RxEv::Chunk(tick.clone()), RxEv::Quiet(mid), RxEv::Chunk(g1[..2].to_vec()), RxEv::Quiet(mid), RxEv::Chunk(g1[2..6].to_vec()), RxEv::Quiet(mid),
+             RxEv::Chunk(g1[6..].to_vec()), RxEv::Chunk(g2.clone()), RxEv::Close],
     ];
     for t in timed {
         scripts.push(("timed".to_string(), t));
@@ -1104,6 +1115,12 @@ async fn rx_cases(ctx: &mut Ctx) {
             continue;
         };
         ctx.count(&format!("rx_{}", tag));
+        // the property itself, on the implementation: while no single silence comes near the limit (at most half of it), the
+        // receive call must not time out, however long the peer has been sending nothing but ticks
+        let max_quiet = evs.iter().filter_map(|e| if let RxEv::Quiet(ms) = e { Some(*ms) } else { None }).max().unwrap_or(0);
+        if max_quiet * 2 <= LIMIT && out.iter().any(|o| o == "err-timeout") {
+            ctx.fail("c19-timeout-although-no-silence-reached-the-limit", &format!("limit={}ms script={} results={}", LIMIT, rx_text(&evs), out.join(",")));
+        }
         for o in &out {
             ctx.count(&format!("rx_result_{}", o.split('!').next().unwrap_or("")));
         }
